@@ -72,10 +72,29 @@ class Cast(nn.Module):
 
 
 # ----------------------------------------------------------------- C16 trees (not runnable)
+class Net:
+    """classes defined in a nested scope: __qualname__ ('Net.Head') differs from __name__ ('Head'), which is what skip
+    patterns are documented to be searched against"""
+    class Head(nn.Linear):
+        pass
+
+    class Stem(nn.Conv2d):
+        pass
+
+
+def _local_projection():
+    class Projection(nn.Linear):
+        pass
+    return Projection
+
+
+LocalProjection = _local_projection()   # qualname '_local_projection.<locals>.Projection'
+
+
 def random_tree(rng, depth=0, pool=None):
     pool = pool if pool is not None else []
     kinds = ['linear', 'linear_nobias', 'conv', 'mylinear', 'myconv', 'bn', 'ln', 'emb', 'relu', 'bilinear', 'mha',
-             'frozen', 'partfrozen', 'shared', 'tied', 'wrapchild', 'container', 'container', 'modulelist', 'moduledict', 'identity', 'conv1d', 'fakelinear', 'fakeconv']
+             'frozen', 'partfrozen', 'shared', 'tied', 'nested', 'wrapchild', 'container', 'container', 'modulelist', 'moduledict', 'identity', 'conv1d', 'fakelinear', 'fakeconv']
 
     def leaf(kind):
         if kind == 'linear':
@@ -115,6 +134,8 @@ def random_tree(rng, depth=0, pool=None):
             return m
         if kind == 'wrapchild':
             return LinearWithChild(2, 3)
+        if kind == 'nested':
+            return rng.choice([lambda: Net.Head(2, 3), lambda: Net.Stem(1, 2, 2), lambda: LocalProjection(3, 2)])()
         if kind == 'fakelinear':
             return FakeLinear()
         if kind == 'fakeconv':
@@ -184,6 +205,9 @@ def random_patterns(rng, model):
         elif k < 0.55:
             c = rng.choice(classes)
             pats.append(rng.choice([c, '^' + c + '$', c[:3], c.lower(), c[-4:]]))
+        elif k < 0.58 and any(m.__class__.__qualname__ != m.__class__.__name__ for m in model.modules()):
+            # patterns that tell the class name from the qualified name: anchored at the name, or naming the enclosing scope only
+            pats.append(rng.choice(['^Head$', '^Projection', '^Stem', 'Net', 'locals', '_local_projection', r'^Net\.']))
         elif k < 0.62:
             # patterns whose meaning depends on being compiled on their own: capture groups, back-references, inline flags
             pats.append(rng.choice(['(fc|conv|head)\\d', r'(\d)\.\1', r'(\d)\.(\d)\.\2', '(?i)linear', '(?i)' + rng.choice(names or ['fc']).upper(), r'(a|b)\1', '(?i)CONV',
